@@ -21,7 +21,12 @@ for pid in ids:
     if not os.path.exists(modp) or pid in na:
         not_app.append({"property_id": pid, "reason": na.get(pid, "not yet covered by the framework (work in progress; see DESIGN.md §11)")})
         continue
-    m = importlib.import_module("props.%s" % pid.lower()).META
+    try:
+        m = importlib.import_module("props.%s" % pid.lower()).META
+        m["level_text"], m["level_note"], m["technique"]
+    except Exception as e:  # noqa: BLE001  (a half-written plugin must not break the manifest)
+        not_app.append({"property_id": pid, "reason": "plugin not loadable yet: %s" % str(e)[:120]})
+        continue
     checks.append({
         "property_id": pid,
         "quick_cmd": "./check %s --tier quick" % pid,
